@@ -3,7 +3,15 @@
 which checks raise an alarm.  Only the checks whose contracts read a touched file are run (plus the seed's own property).
 usage: seed_matrix.py [seed ...] [--checks=C01,C10] [--all-checks] [--par=3]"""
 import os, sys, json, subprocess, tempfile, shutil, re, concurrent.futures as cf
-V = os.path.dirname(os.path.dirname(os.path.abspath(__file__)))
+V0 = os.path.dirname(os.path.dirname(os.path.abspath(__file__)))
+# work on a snapshot of the machinery so that edits made while the matrix runs do not leak into it
+V = tempfile.mkdtemp(prefix='pyvc-matrix-')
+for name in ('pyvc', 'contracts', 'bounded', 'seeded'):
+    shutil.copytree(os.path.join(V0, name), os.path.join(V, name), ignore=shutil.ignore_patterns('__pycache__'))
+for name in ('check', 'MANIFEST.json', 'known_findings.json'):
+    shutil.copy(os.path.join(V0, name), os.path.join(V, name))
+import atexit
+atexit.register(lambda: shutil.rmtree(V, ignore_errors=True))
 man = json.load(open(os.path.join(V, 'MANIFEST.json')))
 registered = [c['property_id'] for c in man['checks']]
 RELEVANT = {
